@@ -5,6 +5,7 @@ from __future__ import annotations
 
 import warnings
 
+import math
 import numpy as np
 
 from .. import common, sites
@@ -524,6 +525,93 @@ def s2_sequence_check(ctx, c, outs):
     return None
 
 
+# ---- SO(3) grids of the "quaternion" and "haar_euler" methods vs the model (SO3Sampling.lean) --------------------------------
+def so3steps_lines(c):
+    return [f"samp so3steps {f2h(c['resolution'])} {int(c['even'])} {int(c['odd'])}"]
+
+
+def so3steps_check(ctx, c, outs):
+    from orix.sampling.SO3_sampling import _resolution_to_num_steps
+    err = None
+    try:
+        with warnings.catch_warnings(), np.errstate(all="ignore"):
+            warnings.simplefilter("ignore")
+            n = _resolution_to_num_steps(c["resolution"], even_only=c["even"], odd_only=c["odd"])
+    except Exception as e:
+        err = _impl_err(e)
+    if err is not None or outs[0].startswith("!err"):
+        return None if _same_err(outs[0], err) else (f"_resolution_to_num_steps({c['resolution']}): implementation "
+                                                      f"{'raises ' + err if err else 'returns'}, model {outs[0][:40]}")
+    if int(outs[0]) != int(n):
+        return (f"_resolution_to_num_steps({c['resolution']}, even_only={c['even']}, odd_only={c['odd']}) = {n} but the model "
+                f"gives {outs[0]}")
+    return None
+
+
+def so3grid_lines(c):
+    return [f"samp {'so3q' if c['method'] == 'quaternion' else 'so3e'} {f2h(c['resolution'])} {int(c['full'])}"]
+
+
+def _so3_theorem_bound(method, r):
+    """the covering bound proved in Properties/C19.lean (so3_quaternion_covers_resolution / so3_euler_covers_resolution)"""
+    if method == "quaternion":
+        return math.cos(r * math.pi / 360) * math.sqrt(1 - r / (2 * (360 - r)))
+    return math.cos(r * math.pi / 360) * math.sqrt(1 - r / 180)
+
+
+def so3grid_check(ctx, c, outs):
+    """grid before unique(): same number of rotations, same rotations in the same order (up to the sign the Rotation
+    constructor may not change: compared as data, 4 ulp), and - for the implementation's grid - the covering bound the
+    theorem states about the model's grid, on seeded random rotations"""
+    from orix.sampling.SO3_sampling import _three_uniform_samples_method, _euler_angles_haar_measure
+    fn = _three_uniform_samples_method if c["method"] == "quaternion" else _euler_angles_haar_measure
+    err = None
+    try:
+        with warnings.catch_warnings(), np.errstate(all="ignore"):
+            warnings.simplefilter("ignore")
+            rot = fn(c["resolution"], False)
+    except Exception as e:
+        err = _impl_err(e)
+    if err is not None or outs[0].startswith("!err"):
+        return None if _same_err(outs[0], err) else (f"{fn.__name__}({c['resolution']}): implementation "
+                                                      f"{'raises ' + err if err else 'returns'}, model {outs[0][:40]}")
+    t = outs[0].split()
+    if int(t[0]) != rot.size:
+        return f"{fn.__name__}({c['resolution']}, unique=False): {rot.size} rotations, model {t[0]}"
+    data = rot.data.reshape(-1, 4)
+    if np.abs(np.linalg.norm(data, axis=1) - 1).max() > 1e-14:
+        return f"{fn.__name__}({c['resolution']}): non-unit quaternions"
+    if c["full"]:
+        m = _floats(t[1:]).reshape(-1, 4)
+        nm = np.linalg.norm(m, axis=1)
+        m = m / nm[:, None]                              # the Rotation constructor normalises
+        d = float(np.abs(m - data).max()) if len(m) else 0.0
+        ctx.dev(f"so3_{c['method']}_grid_abs", d)
+        if d > 2e-15:
+            k = int(np.argmax(np.abs(m - data).max(axis=1)))
+            return (f"{fn.__name__}({c['resolution']}, unique=False)[{k}] = {data[k].tolist()} but the model's grid has "
+                    f"{m[k].tolist()} there (max deviation {d:.3g})")
+    if 0 < c["resolution"] <= 180 and rot.size:
+        bound = _so3_theorem_bound(c["method"], c["resolution"])
+        rng = np.random.Generator(np.random.PCG64(c["seed"]))
+        p = rng.normal(size=(c["n_targets"], 4))
+        p /= np.linalg.norm(p, axis=1)[:, None]
+        # rotations at the poles of the radial coordinate (u = 0, 1), where the bound is attained
+        a = rng.uniform(0, 2 * np.pi, size=8)
+        poles = np.concatenate([np.stack([np.sin(a[:4]), np.cos(a[:4]), 0 * a[:4], 0 * a[:4]], axis=1),
+                                np.stack([0 * a[4:], 0 * a[4:], np.sin(a[4:]), np.cos(a[4:])], axis=1)])
+        if c["method"] != "quaternion":
+            poles = poles[:, [1, 2, 3, 0]]
+        p = np.concatenate([p, poles])
+        best = np.abs(p @ data.T).max(axis=1)
+        ctx.dev(f"so3_{c['method']}_bound_minus_best", float((bound - best).max()))
+        if (best < bound - 1e-12).any():
+            k = int(np.argmin(best - bound))
+            return (f"{fn.__name__}({c['resolution']}): rotation {p[k].tolist()} has no grid rotation with |p.q| >= {bound!r} "
+                    f"(best {best[k]!r}): the covering theorem proved for the model does not hold for the implementation's grid")
+    return None
+
+
 SITES = {
     "so3_space_group": sites.Site("so3_space_group", "prop", so3_space_group_check),
     "s2_sequence": sites.Site("s2_sequence", "prop", s2_sequence_check),
@@ -539,6 +627,8 @@ SITES = {
     "cube_mesh": sites.Site("cube_mesh", "corr", cube_check, cube_lines),
     "hexagonal_mesh": sites.Site("hexagonal_mesh", "corr", hex_check, hex_lines),
     "s2_any_resolution": sites.Site("s2_any_resolution", "prop", s2_any_check),
+    "so3_num_steps": sites.Site("so3_num_steps", "corr", so3steps_check, so3steps_lines),
+    "so3_grid": sites.Site("so3_grid", "corr", so3grid_check, so3grid_lines),
 }
 
 
@@ -645,6 +735,26 @@ def generate_s2_model(ctx):
         ctx.count(f"hexagonal_mesh/{stratum(r)}", ("hex", r))
         yield "hexagonal_mesh", {"resolution": r, "full": r >= full_from}
     ctx.sample({"site": "cube_mesh", "grid_type": "normalized", "resolution": 45.0, "full": True})
+    # SO(3): number of steps at every awkward resolution, grids of the quaternion / haar_euler methods (whole grid shipped
+    # from 9 degrees (quick) / 6 degrees upwards; counts and the covering bound below that down to 4 / 3 degrees)
+    for r in rs + [0.0, -10.0, float("inf")]:
+        for ev, od in ((False, False), (True, False), (False, True)):
+            ctx.count("so3_num_steps", ("so3n", r, ev, od), nontrivial=r > 0)
+            yield "so3_num_steps", {"resolution": r, "even": ev, "odd": od}
+    cand = [r for r in rs if (5.0 if quick else 3.0) <= r <= 180.0]
+    if quick:                                           # a seeded handful of the awkward resolutions, the fixed ones always
+        cand = [cand[int(i)] for i in rng.choice(len(cand), size=min(6, len(cand)), replace=False)]
+    so3_rs = sorted(set(cand) | {180.0, 120.0, 90.0, 45.0, 30.0, 20.0, 12.0, 10.0} | {200.0, 360.0, 400.0})
+    for r in so3_rs:
+        for m in ("quaternion", "haar_euler"):
+            full = r >= (12.0 if quick else 6.0)
+            ctx.count(f"so3_grid/{m}/{'full' if full else 'count+bound'}", ("so3g", m, r))
+            yield "so3_grid", {"method": m, "resolution": r, "full": full, "n_targets": 40 if quick else 200,
+                               "seed": int(rng.integers(1 << 30))}
+    for r in (0.0, -10.0):
+        for m in ("quaternion", "haar_euler"):
+            ctx.count("so3_grid/rejected", ("so3g", m, r), nontrivial=False)
+            yield "so3_grid", {"method": m, "resolution": r, "full": False, "n_targets": 0, "seed": 0}
     # the property itself on the implementation at the awkward resolutions
     for r in rs:
         for m in S2_BOUND:
